@@ -76,11 +76,37 @@ RAW = [
 ]
 
 
-def write_raw(raw, sub, pkg):
+def _M(name, params, body):
+    return "@memento_function(cluster=\"vp\")\ndef %s(%s):\n    vrec.REC.enter('%s', x)\n    return %s\n" % (name, params, name, body)
+
+
+def _variants(pieces, orders):
+    """hand-written definition orders of one module"""
+    return [{"mod.py": RAW_HEADER + "\n\n".join(pieces[k] for k in o)} for o in orders]
+
+
+_P1 = dict(scale="def scale(a):\n    return a * 3\n", m1=_M("m1", "x", "scale(x) + 1"), m2=_M("m2", "x, source=m1", "source(x) + x"))
+_P2 = dict(fmt="def format(value):\n    return '<%s>' % value\n", rnd="def round(a):\n    return a + 100\n",
+           h="def h(a):\n    return [round(a), len([a])]\n", m1=_M("m1", "x", "x + 1"), m2=_M("m2", "x", "[format(x), h(x), m1(x)]"))
+RAW += [
+    # a memento function as the default value of a parameter of another one, defined before / after the helper it uses
+    dict(name="memento-function-as-default", ms=["m1", "m2"], files={"aux.py": RAW_HEADER, "mod.py": ""},
+         variants=_variants(_P1, [["scale", "m1", "m2"], ["m1", "scale", "m2"], ["m1", "m2", "scale"]])),
+    # module-level helpers named like builtins, defined above / below the last memento function of the program
+    dict(name="helpers-named-like-builtins", ms=["m1", "m2"], files={"aux.py": RAW_HEADER, "mod.py": ""},
+         variants=_variants(_P2, [["fmt", "rnd", "h", "m1", "m2"], ["m1", "m2", "h", "rnd", "fmt"], ["m1", "h", "m2", "fmt", "rnd"],
+                                  ["rnd", "m1", "m2", "fmt", "h"]])),
+]
+
+
+def write_raw(raw, sub, pkg, variant=0):
     d = os.path.join(sub, pkg)
     os.makedirs(d, exist_ok=True)
     open(os.path.join(d, "__init__.py"), "w").write("")
-    for fn, src in raw["files"].items():
+    files = dict(raw["files"])
+    if raw.get("variants"):
+        files.update(raw["variants"][variant % len(raw["variants"])])
+    for fn, src in files.items():
         path = os.path.join(sub, fn) if "/" in fn else os.path.join(d, fn)       # "otherpkg/x.py": a second package
         os.makedirs(os.path.dirname(path), exist_ok=True)
         open(path, "w").write(src)
@@ -94,9 +120,12 @@ def check_program(prog, root, seeds, rng_orders):
     ms = raw["ms"] if raw else [n for n in prog["order"] if n[0] == "m"]
     if raw:
         class _W:
+            variant = 0
+
             @staticmethod
             def write_package(prog, sub, pkg, order=None):
-                write_raw(raw, sub, pkg)
+                write_raw(raw, sub, pkg, _W.variant)
+                _W.variant += 1           # every process of the comparison gets the next hand-written definition order
         vp = _W
     else:
         vp = vprogs
